@@ -131,11 +131,15 @@ impl Backend for Rasn {
             .collect();
         let mut non_derive_annotations = Vec::new();
         for cfg_annotation in config.type_annotations {
-            if let Ok((_, derives)) = parse_rust_derive_annotation(&cfg_annotation) {
+            if let Ok((rest, derives)) = parse_rust_derive_annotation(&cfg_annotation) {
                 for derive in derives {
                     if !required_derives.iter().any(|d| d == derive) {
                         required_derives.push(derive.to_owned());
                     }
+                }
+                // further attributes behind the derive list in the same element are kept
+                if !rest.trim().is_empty() {
+                    non_derive_annotations.push(rest.trim().to_owned());
                 }
             } else {
                 non_derive_annotations.push(cfg_annotation);
